@@ -26,9 +26,10 @@ go build -modfile=$M/go.mod ./... || { res "BUILD-FAILED"; exit 1; }
 go test -modfile=$M/go.mod -vet=off -count=1 ./... > $M/suite.log 2>&1 && res "suite-with-change: PASS" || { res "suite-with-change: FAIL"; grep -E "^(FAIL|---)" $M/suite.log | head; }
 mkdir -p $(dirname $DEMO_PATH); cp $SRC/demo_test.go $DEMO_PATH
 PKG=./$(dirname $DEMO_PATH)/
-go test -modfile=$M/go.mod -vet=off -count=1 -run 'Seeded|Demo|seeded' $PKG > $M/demo_with.log 2>&1 && res "demo-with-change: PASS (unexpected)" || res "demo-with-change: FAIL (expected)"
+rundemo() { go test -modfile=$M/go.mod -vet=off -count=1 -run 'Seeded|Demo|seeded' $PKG > $1 2>&1 && go test -modfile=$M/go.mod -vet=off -count=1 -run '/(Seeded|Demo|seeded)' $PKG >> $1 2>&1; }
+rundemo $M/demo_with.log && res "demo-with-change: PASS (unexpected)" || res "demo-with-change: FAIL (expected)"
 git apply -R $SRC/patch.diff 2>/dev/null || git checkout -q -- $(git diff --name-only)
-go test -modfile=$M/go.mod -vet=off -count=1 -run 'Seeded|Demo|seeded' $PKG > $M/demo_without.log 2>&1 && res "demo-without-change: PASS (expected)" || { res "demo-without-change: FAIL (unexpected)"; tail -20 $M/demo_without.log; }
+rundemo $M/demo_without.log && res "demo-without-change: PASS (expected)" || { res "demo-without-change: FAIL (unexpected)"; tail -20 $M/demo_without.log; }
 if grep -q "suite-with-change: PASS" $M/result.txt && grep -q "demo-with-change: FAIL" $M/result.txt && grep -q "demo-without-change: PASS" $M/result.txt; then
   D=/verif/seeded/$NAME; mkdir -p $D
   cp $SRC/patch.diff $D/patch.diff; cp $SRC/demo_test.go $D/demo_test.go
